@@ -213,7 +213,11 @@ def check_sent(rep, nl, eng, row, cur, NSF):
                        sample="sent keys = keys of current")
         st = sym.St()
         st.store = dict(row.store)
-        outs = list(sym.call_closure(eng, st, clo2, [("obj", ("S", "mid"))], 0, (nl.fn["id"], 1)))
+        cv = T.resolve_locals(eng, row.store, clo2)
+        cfn = eng.fx.fns.get(cv[1]) if cv[0] in ("closure", "fnptr") else None
+        by_ref = bool(cfn) and any(i.lstrip("(").startswith("&types::ChitchatId") or i.lstrip("(").startswith("&'") for i in (cfn.get("inputs") or [])[-1:])
+        # the keys may be handed to the closure by value (`keys().cloned().flat_map`) or by reference (`keys().filter_map`)
+        outs = list(sym.call_closure(eng, st, clo2, [("ptr", ("S", "mid"), ()) if by_ref else ("obj", ("S", "mid"))], 0, (nl.fn["id"], 1)))
         for s2, ret in outs:
             present = pred = predval = None
             for c in s2.cond:
@@ -230,7 +234,11 @@ def check_sent(rep, nl, eng, row, cur, NSF):
             if sym.is_some(ret):
                 tup = ret[3][0][1]
                 k, v = T.field(tup, "0"), T.field(tup, "1")
-                rep.obligation(k == ("obj", ("S", "mid")), "C13/R13.3/sent-key", "published under key %s" % sym.fmt(k)[:60], where(nl.fn))
+                k = T.resolve_locals(eng, s2.store, k) if k is not None else k
+                kok = k == ("obj", ("S", "mid")) or (k is not None and k[0] == "agg" and k[1] == "types::ChitchatId" and all(
+                    fv == ("proj", ("obj", ("S", "mid")), F("types::ChitchatId", fn_)) or sym.fmt(fv) in ("mid.%s" % fn_, "*(mid).%s" % fn_)
+                    for fn_, fv in k[3]))      # a clone of the key, taken by value or through the reference the iterator yields
+                rep.obligation(kok, "C13/R13.3/sent-key", "published under key %s" % sym.fmt(k)[:60], where(nl.fn))
                 vok = v is not None and (v[0] == "agg" and v[1] == NS or T.mentions_field(v, "std::option::Option", "0")) and any(
                     s[0] == "call" and s[1] == NSF for s in T.subterms(v))
                 rep.obligation(vok, "C13/R13.3/sent-value", "published value is not a clone of the member's current state", where(nl.fn),
